@@ -218,7 +218,8 @@ class STok:
         """int(tok[, base]) as Python computes it on the text"""
         us = self.units
         if _len(us) == 1:
-            if base == 10:
+            if base == 10 or base == 0:
+                # base 0 reads a canonical decimal rendering (no leading zeros - the stated form of a numeral) as base 10 does
                 return us[0]
             _taint('int(tok, %r)' % (base,))
             return _int(self._text(), base)
